@@ -4,7 +4,7 @@ of its property (and, with --all, every check) and print which rules report it.
 Never touches /repo's working tree. usage: seeded_matrix.py [--all] [id ...]"""
 import json, os, subprocess, sys, tempfile, shutil
 VERIF = os.path.dirname(os.path.dirname(os.path.abspath(__file__)))
-BIN = os.path.join(VERIF, 'bin', 'hopverif')
+BIN = os.environ.get('HOPVERIF_BIN') or os.path.join(VERIF, 'bin', 'hopverif')
 args = [a for a in sys.argv[1:] if not a.startswith('--')]
 ALL = '--all' in sys.argv
 wt = tempfile.mkdtemp(prefix='hopsm')
